@@ -44,6 +44,14 @@ func c08Case(rt *rapid.T, rec *vt.Rec) {
 	var hosts []*c08Host
 	healthy := rapid.Bool().Draw(rt, "healthyPopulation")
 	for i := 0; i < nHosts; i++ {
+		// a host may spell its node id in upper case or with a 0x prefix (accepted by request verification, kept as
+		// sent): the id the pool hands to clients is the id clients report back as their peer
+		switch rapid.SampledFrom([]string{"plain", "plain", "plain", "upper", "0x"}).Draw(rt, "idSpelling") {
+		case "upper":
+			s.agents[i].id.nodeID = strings.ToUpper(s.agents[i].id.nodeID)
+		case "0x":
+			s.agents[i].id.nodeID = "0x" + s.agents[i].id.nodeID
+		}
 		h := &c08Host{Idx: i, Name: s.agents[i].id.name}
 		h.Kind = rapid.SampledFrom([]string{"geth", "geth", "parity", ""}).Draw(rt, "kind")
 		h.age = rapid.SampledFrom(c08Ages).Draw(rt, "age")
